@@ -515,7 +515,7 @@ func fmtMain(args []string) {
 					} else {
 						det.AstDiff = firstLine(perr.Error())
 					}
-					if cout, ok := commentsOf(out); ok {
+					if cout, ok := commentsOf(out); ok && cout != nil {
 						obs.Cout = cout
 					}
 					out2, ferr2 := safeFormat(out, o)
